@@ -133,10 +133,13 @@ def run(ctx):
             continue
         if label == "c20paths":
             for ln, op, im, mo in mism[:4]:
-                ctx.report(
-                    f"cmd/run.go no longer follows the modelled reload paths: `{op}` -> model says `{mo}` "
-                    f"(a path of the worker / run-state handler changed its flag effects, or a modelled path disappeared)",
-                    {"stream": label, "line": ln, "op": op, "impl": im, "model": mo})
+                if " facts" in op.split("!")[0][:20]:
+                    what = (f"a fact about the source that the model relies on no longer holds (channel capacity / signal set / time-out "
+                            f"argument / `dae reload` pre-check / abort-marker position / start-up goroutine): `{op}` -> model says `{mo}`")
+                else:
+                    what = (f"cmd/run.go no longer follows the modelled reload paths: `{op}` -> model says `{mo}` "
+                            f"(a path of the worker / run-state handler / retirement functions changed its effects, or a modelled path disappeared)")
+                ctx.report(what, {"stream": label, "line": ln, "op": op, "impl": im, "model": mo})
             continue
         # property-level oracle on the implementation's own answers
         seq_start = 0
